@@ -928,6 +928,24 @@ pub fn dispatch(cmd: &str, a: &HashMap<String, String>) -> Option<Value> {
     let (out, tier, seed) = crate::common(a);
     match cmd {
         "exitwait" => Some(batch(&out, &tier, seed)),
+        // re-execute one engine-H schedule of one shape on the current tree (violation replays)
+        "exitwait-replay" => {
+            let shape_str = a.get("shape-str").cloned().unwrap_or_default();
+            let sched: Vec<usize> = serde_json::from_str(a.get("sched").map(|s| s.as_str()).unwrap_or("[]")).unwrap_or_default();
+            let sh = shapes_h("thorough").into_iter().chain(shapes_h("quick")).find(|s| format!("{s:?}") == shape_str);
+            match sh {
+                None => Some(json!({"runs": 0, "error": "unknown shape"})),
+                Some(sh) => {
+                    let mut b = Batch::new(Some(out.as_str()));
+                    let mut ex = Explorer::new(Mode::Replay(sched), 0);
+                    ex.begin_run();
+                    let (evs, meta, _bad) = one_run_h(&sh, &mut ex);
+                    b.run(meta, &evs);
+                    b.finish();
+                    Some(json!({"runs": 1}))
+                }
+            }
+        }
         // size of the bounded DFS of one H shape (development aid)
         "exitwait-count" => {
             let i: usize = a.get("shape").and_then(|s| s.parse().ok()).unwrap_or(0);
